@@ -26,7 +26,7 @@ type C20Case struct {
 }
 
 var rootShapes = []string{"dup-ID", "dup-Destination", "dup-Version", "dup-InResponseTo", "x:ID-before", "x:ID-after", "x:Destination-before", "x:InResponseTo-after",
-	"issuer-twice", "issuer-twice-first-evil", "issuer-comment", "issuer-cdata", "issuer-child", "issuer-other-ns-first", "issuer-nested-deeper", "shadow-prefix", "status-before-issuer", "empty-attrs"}
+	"issuer-twice", "issuer-twice-first-evil", "issuer-comment", "issuer-cdata", "issuer-child", "issuer-child-middle", "issuer-pi-middle", "issuer-pi-leading", "issuer-other-ns-first", "issuer-nested-deeper", "shadow-prefix", "status-before-issuer", "empty-attrs"}
 
 var prologs = []string{"", "", `<?xml version="1.0" encoding="UTF-8"?>`, `<?xml version="1.0" encoding="utf-8"?>`, `<?xml version="1.0" encoding="US-ASCII"?>`, `<?xml version="1.0" encoding="ISO-8859-1"?>`,
 	`<?xml version="1.0" encoding="UTF-16"?>`, "\xEF\xBB\xBF", "\xEF\xBB\xBF" + `<?xml version="1.0"?>`, `<!DOCTYPE x [<!ENTITY e "v">]>`, "<!-- c -->\n", `<?pi x?>`, "\n \t"}
@@ -113,6 +113,24 @@ func applyRootShape(root *etree.Element, shape string, evil string) {
 			c := etree.NewElement("b")
 			c.SetText("evil")
 			is[0].AddChild(c)
+		}
+	case "issuer-child-middle", "issuer-pi-middle", "issuer-pi-leading":
+		if is := issuers(); len(is) > 0 {
+			txt := is[0].Text()
+			for len(is[0].Child) > 0 {
+				is[0].RemoveChildAt(0)
+			}
+			cut := len(txt) / 2
+			if shape == "issuer-pi-leading" {
+				cut = 0
+			}
+			is[0].AddChild(etree.NewText(txt[:cut]))
+			if shape == "issuer-child-middle" {
+				is[0].AddChild(etree.NewElement("x"))
+			} else {
+				is[0].AddChild(etree.NewProcInst("tenant", "b"))
+			}
+			is[0].AddChild(etree.NewText(txt[cut:]))
 		}
 	case "issuer-other-ns-first":
 		e := etree.NewElement("Issuer")
